@@ -569,6 +569,8 @@ class Engine:
                 name = tb.path
         # 1. summaries
         summ = self.summaries.get(name) or self.summaries.get(declared)
+        if summ is None and name.startswith('std::convert::num::<impl std::convert::From<') and name.endswith('>::from'):
+            summ = self.summaries.get('<T as std::convert::Into<U>>::into')     # lossless integer / float widening
         if summ is not None:
             res = summ(self, st, fr, args, fn, site)
             if res is not None:
